@@ -26,6 +26,7 @@ TECHNIQUE = ('differential testing on transliterated wrapper source: '
              'generated handle life-cycle histories and NULL-return fault '
              'injection against a reference-counting stub library')
 RULE = (
+    'Methods of dd/cudd.pyx beyond apply (ite, quantify, forall, exist, let in its three forms incl. _cofactor / _unary_compose / _multi_compose / _rename, _swap, var) run the same way for the reference discipline: the result handle accounts for exactly one reference, temporaries (cubes, variable handles, vectors) are gone afterwards, also when the i-th library call returns NULL. '
     'ZDD: the hand-written recursions of cudd_zdd.pyx (_exist, _forall, _disjoin, _conjoin, _compose, _find_or_add, their roots and _c_ entry points, _dict_to_zdd) are executed on a structural reference-counting model of the CUDD ZDD layer: all functions x cubes for the quantifiers (result compared with the truth-table oracle: these are what apply uses), all / sampled pairs for the others, and for sampled calls the i-th unique-table insertion fails for every i, once as out-of-memory (must raise) and once as reordering (must retry); after dropping all handles every reference must be released. '
     'D+E: for each of dd/cudd.pyx, cudd_zdd.pyx, sylvan.pyx, buddy.pyx the '
     'body of apply is cut out of the source, rewritten mechanically into '
@@ -76,6 +77,9 @@ def plan(tier, seed):
                           samples=600 if tier == 'thorough' else 120))
         specs.append(dict(kind='lifecycle', wrapper=w, seed=seed * 10 + 1,
                           examples=3000 if tier == 'thorough' else 400))
+    for p in range(4 if tier == 'thorough' else 2):
+        specs.append(dict(kind='methods', seed=seed * 10 + p,
+                          samples=4000 if tier == 'thorough' else 600))
     # the hand-written ZDD recursions of cudd_zdd.pyx
     for entry in ('_c_exist', '_c_forall'):
         specs.append(dict(kind='zdd', mode='all', entry=entry, part=0,
@@ -406,6 +410,136 @@ def run_lifecycle(spec, out):
                     not_reached=M.not_reached), force=True)
 
 
+# --------------------------------------------- other methods of cudd.pyx
+CUDD_METHODS = ['ite', 'quantify', 'forall', 'exist', 'let_const',
+                'let_compose1', 'let_compose2', 'let_rename', '_swap',
+                'var']
+
+
+def method_case(M, meth, a, b, c, k, fail_at=None):
+    """Reference discipline of one wrapper method of dd/cudd.pyx (the
+    value is compared with the oracle only as an observation)."""
+    L = M.L
+    L.count.clear()
+    L.negative = False
+    M.dealloc_errors = 0
+    n, F, nm = P.N, P.F, P.NAMES
+    u, v, w = M.fn(a), M.fn(b), M.fn(c)
+    holders = [u, v, w]
+    m = M.mgr
+    js = [j for j in range(n) if (k >> j) & 1]
+    names = [nm[j] for j in js]
+    want = None
+    L.calls = 0
+    L.fail_at = fail_at
+    r = None
+    raised = None
+    try:
+        if meth == 'ite':
+            r = m.ite(u, v, w)
+            want = tt.ite(a, b, c, n)
+        elif meth == 'quantify':
+            r = m.quantify(u, set(names), bool(k & 8))
+            want = (tt.forall if k & 8 else tt.exists)(a, n, js)
+        elif meth == 'forall':
+            r = m.forall(names, u)
+            want = tt.forall(a, n, js)
+        elif meth == 'exist':
+            r = m.exist(iter(names), u)
+            want = tt.exists(a, n, js)
+        elif meth == 'let_const':
+            d = {x: bool((k >> (3 + i)) & 1) for i, x in enumerate(names)}
+            r = m.let(d, u)
+            want = tt.cofactor(a, n, {nm.index(x): val
+                                      for x, val in d.items()})
+        elif meth == 'let_compose1':
+            x = nm[k % n]
+            r = m.let({x: v}, u)
+            want = tt.compose(a, n, {k % n: b})
+        elif meth == 'let_compose2':
+            x, y = nm[k % n], nm[(k + 1) % n]
+            r = m.let({x: v, y: w}, u)
+            want = tt.compose(a, n, {k % n: b, (k + 1) % n: c})
+        elif meth == 'let_rename':
+            x, y = nm[k % n], nm[(k + 1 + k // 3) % n]
+            r = m.let({x: y}, u)
+            want = tt.rename(a, n, {k % n: (k + 1 + k // 3) % n})
+        elif meth == '_swap':
+            x, y = nm[k % n], nm[(k + 1) % n]
+            r = m._swap(u, {x: y})
+            want = tt.rename(a, n, {k % n: (k + 1) % n,
+                                    (k + 1) % n: k % n})
+        else:
+            r = m.var(nm[k % n])
+            want = tt.var(n, k % n)
+    except Exception as e:
+        raised = type(e).__name__
+    finally:
+        L.fail_at = None
+    ncalls = L.calls
+    agree = None
+    if raised is None:
+        if r is u or r is v or r is w:
+            exp = live_expected(M, holders)
+        else:
+            exp = live_expected(M, holders + [r])
+        require(L.live() == exp, 'refs.result_not_referenced_once',
+                dict(method=meth, live=L.live(), want=exp))
+        agree = (r.node == want)
+    elif fail_at is None or fail_at > ncalls:
+        raise Violation('refs.method_raised',
+                        dict(method=meth, error=raised))
+    r = None
+    if L.live() != live_expected(M, holders):
+        gc.collect()
+    require(L.live() == live_expected(M, holders),
+            'refs.temporary_reference_leaked',
+            dict(method=meth, fail_at=fail_at, live=L.live()))
+    u = v = w = None
+    holders = None
+    if L.live():
+        gc.collect()
+    require(not L.live(), 'refs.handle_not_released',
+            dict(method=meth, live=L.live()))
+    require(not L.negative, 'refs.counter_negative', dict(method=meth))
+    require(M.dealloc_errors == 0, 'refs.dealloc_raised')
+    return ncalls, agree
+
+
+def run_methods(spec, out):
+    M = model_or_fail('cudd', out, spec)
+    r = random.Random(f'c19m:{spec["seed"]}')
+    cnt = nt = 0
+    base = dict(kind='methodcase')
+    for i in range(spec['samples']):
+        meth = CUDD_METHODS[i % len(CUDD_METHODS)]
+        key = {'let_const': 'let', 'let_compose1': 'let',
+               'let_compose2': 'let', 'let_rename': 'let'}.get(meth, meth)
+        if f'BDD.{key}' not in M.reached:
+            out.label(f'not_reached.{meth}')
+            continue
+        a, b, c, k = (r.randrange(256), r.randrange(256), r.randrange(256),
+                      r.randrange(64))
+        case = dict(base, method=meth, a=a, b=b, c=c, k=k)
+        res = []
+        cnt += 1
+        if not out.guard(case, lambda: res.append(
+                method_case(M, meth, a, b, c, k))):
+            continue
+        ncalls, agree = res[0]
+        out.label(f'value.{"agrees" if agree else "differs"}.{meth}')
+        for j in range(1, ncalls + 1):
+            out.guard(dict(case, fail_at=j),
+                      lambda: method_case(M, meth, a, b, c, k, j))
+            cnt += 1
+            nt += 1
+    out.count(cnt, nt)
+    out.note(f'cudd methods: reached {M.reached}; '
+             f'not reached {M.not_reached}')
+    out.sample(dict(base, method='let_compose2', a=0x96, b=0xe8, c=0x3c,
+                    k=1, fail_at=1))
+
+
 # ------------------------------------------------ cudd_zdd.pyx recursions
 ZDD_ENTRY = ['_c_exist', '_c_forall', '_c_disjoin', '_c_conjoin',
              '_c_compose']
@@ -552,12 +686,21 @@ def run_zdd(spec, out):
 def run(spec, out):
     if spec['kind'] == 'zdd':
         return run_zdd(spec, out)
+    if spec['kind'] == 'methods':
+        return run_methods(spec, out)
     dict(apply=run_apply, faults=run_faults, lifecycle=run_lifecycle)[
         spec['kind']](spec, out)
 
 
 def replay_into(case, out):
     k = case['kind']
+    if k == 'methodcase':
+        M = P.Model('cudd')
+        out.guard(case, lambda: method_case(
+            M, case['method'], case['a'], case['b'], case['c'], case['k'],
+            case.get('fail_at')))
+        out.count(1, 0)
+        return
     if k == 'zddcase':
         Z = P.ZddModel(3)
         out.guard(case, lambda: zdd_case(
